@@ -109,6 +109,11 @@ impl BpsvBuilder {
     }
 
     /// Add a row of values
+    ///
+    /// A row is written as one line, the values separated by `|`. The format
+    /// has no escaping, and a reader skips blank lines and lines that start
+    /// with `#` and trims every line: a row whose line would not come back as
+    /// the same row is an error.
     pub fn add_row(&mut self, values: Vec<BpsvValue>) -> Result<&mut Self, BpsvError> {
         if values.len() != self.fields.len() {
             return Err(BpsvError::FieldCountMismatch {
@@ -116,6 +121,25 @@ impl BpsvBuilder {
                 actual: values.len(),
             });
         }
+
+        let cells: Vec<String> = values.iter().map(ToString::to_string).collect();
+        if let Some(cell) = cells.iter().find(|c| c.contains(['|', '\n', '\r'])) {
+            return Err(BpsvError::UnwritableRow(format!(
+                "value {cell:?} contains a separator or a line break"
+            )));
+        }
+        let line = cells.join("|");
+        if line.trim() != line {
+            return Err(BpsvError::UnwritableRow(format!(
+                "line {line:?} starts or ends with white space, which a reader trims"
+            )));
+        }
+        if line.is_empty() || line.starts_with('#') {
+            return Err(BpsvError::UnwritableRow(format!(
+                "line {line:?} is blank or a comment for a reader"
+            )));
+        }
+
         self.rows.push(values);
         Ok(self)
     }
@@ -290,6 +314,44 @@ mod tests {
         let output = format(&document);
 
         assert!(output.contains("a||c"));
+    }
+
+    #[test]
+    fn test_builder_rejects_rows_a_reader_would_not_give_back() {
+        let mut builder = BpsvBuilder::new();
+        builder
+            .add_field(BpsvField::new("Name", BpsvType::String(0)))
+            .add_field(BpsvField::new("N", BpsvType::Dec(4)));
+
+        // read as a comment
+        let row = vec![BpsvValue::String("#1 build".to_string()), BpsvValue::Dec(1)];
+        assert!(matches!(
+            builder.add_row(row),
+            Err(BpsvError::UnwritableRow(_))
+        ));
+        // read as two values
+        let row = vec![BpsvValue::String("a|b".to_string()), BpsvValue::Dec(1)];
+        assert!(matches!(
+            builder.add_row(row),
+            Err(BpsvError::UnwritableRow(_))
+        ));
+        // a '#' anywhere else is content
+        let row = vec![BpsvValue::String("build #1".to_string()), BpsvValue::Dec(1)];
+        builder.add_row(row).expect("Test operation should succeed");
+        let row = vec![BpsvValue::Empty, BpsvValue::Dec(2)];
+        builder.add_row(row).expect("Test operation should succeed");
+
+        let output = format(&builder.build());
+        let parsed = crate::bpsv::parse(&output).expect("Test operation should succeed");
+        assert_eq!(parsed.row_count(), 2);
+
+        // a single empty value is a blank line
+        let mut builder = BpsvBuilder::new();
+        builder.add_field(BpsvField::new("Name", BpsvType::String(0)));
+        assert!(matches!(
+            builder.add_row(vec![BpsvValue::Empty]),
+            Err(BpsvError::UnwritableRow(_))
+        ));
     }
 
     #[test]
